@@ -4,11 +4,14 @@ Engine S on the two event-loop reactors that can be imported on this interpreter
 connection class over a virtual event loop (vt/c11lib.py):
 
 * cassandra.io.asyncioreactor.AsyncioConnection (only `_connect_socket` replaced) on a selector-less
-  asyncio.BaseEventLoop: the loop is one virtual thread whose step is one whole ready handle; push,
-  _push_msg and handle_write are additionally preemptible at every source line; `sock_sendall` answering
-  "at once" or "one loop turn later" is an explored environment choice.
+  asyncio.BaseEventLoop: the loop is one virtual thread whose step is one whole ready handle; EVERY function
+  defined in cassandra/io/asyncioreactor.py (push, _push_msg, handle_write, handle_read, and any helper the
+  loop thread or a pusher runs) is additionally preemptible at every source line, in whichever thread runs it;
+  `sock_sendall` answering "at once" or "one loop turn later" is an explored environment choice.
 * cassandra.io.twistedreactor.TwistedConnection on a virtual reactor (callFromThread = append + scheduling
-  point) with twisted's own transport write buffer over a fake socket that may take only part of a write.
+  point) with twisted's own transport write buffer over a fake socket that may take only part of a write;
+  every function defined in cassandra/io/twistedreactor.py is preemptible at every source line.
+asyncio's and twisted's own code is never traced (atomic between the scheduling points named above).
 
 2-3 pusher threads x 1-2 messages each, optionally more messages pushed from the loop thread itself (every
 ordered pair -- thorough: triple -- of sizes pushed inside one loop callback, alone and against a pusher), sizes
@@ -37,10 +40,15 @@ META = {
             'alone and once racing a 9-byte message of a pusher thread.  Thorough: <=2 preemptions for every size pair, <=2 '
             'delayed sendalls, 3 pushers over {1,9,17}^3, 2x2 messages, loop-thread pushes and cold starts over {1,9,17}^2; twisted <=3 '
             'preemptions for every pair; one-callback loop-thread pushes: every ordered size triple over {1,7,8,9,17} alone, every pair '
-            'against a pusher of each size in {1,9,17}, every triple over {1,9,17} against a pusher.  Scheduling points: every source line of push/_push_msg/handle_write in whichever thread '
-            'runs it, every loop turn (one ready handle), every call_soon_threadsafe/callFromThread.  Oracle: the bytes the fake '
+            'against a pusher of each size in {1,9,17}, every triple over {1,9,17} against a pusher.  Scheduling points: every source line of every function defined in cassandra/io/asyncioreactor.py / '
+            'cassandra/io/twistedreactor.py (selected by file, not by name: push, the coroutines _push_msg/handle_write/handle_read and '
+            'any hand-over helper run by the loop thread are all split at line granularity, so a pusher can run between two lines of '
+            'loop-side driver code, e.g. between a last emptiness test and the clearing of a wake-up flag) in whichever thread '
+            'runs it, every loop turn (one ready handle), every call_soon_threadsafe/callFromThread; asyncio/twisted internals are '
+            'not traced.  Oracle: the bytes the fake '
             'socket received are a concatenation of the pushed messages, each whole, each exactly once, in an order consistent with '
-            'every thread\'s push order, judged when the loop is idle and all threads are done.',
+            'every thread\'s push order, judged at quiescence (loop idle with nothing ready, all threads done): every pushed message must '
+            'be on the socket by then, i.e. a message left in a hand-over structure with nobody scheduled to drain it is reported as lost.',
     'note': 'Trusted: asyncio.BaseEventLoop with time/_process_events/_write_to_self/sock_sendall/sock_recv replaced (no selector; '
             'ready handles run FIFO one per step, as _run_once does); twisted reactor replaced by an object implementing '
             'callFromThread/connectTCP/addWriter/removeWriter with mainLoop\'s order (queued thread calls, then doWrite); line '
@@ -253,6 +261,7 @@ def run(ctx):
     ctx.count('states', ctx.counters.get('executions', 0))
     ctx.count('distinct_nontrivial', ctx.counters.get('executions_with_overlapping_pushes', 0))
     ctx.cov['out_buffer_size'] = c11lib.N
+    ctx.cov['line_granular_files'] = list(c11lib.ASYNCIO_FOCUS_FILES) + list(getattr(c11lib, 'TWISTED_FOCUS_FILES', ()))
     ctx.cov['rule'] = ('evaluations = executions = distinct (configuration, schedule, environment script) triples, every one within the '
                        'group\'s preemption bound, all run to quiescence; states = executions (stateless search); non-trivial = '
                        'execution in which two messages of different threads were in flight together (each push() entered before the '
